@@ -759,3 +759,247 @@ Example ex_pack_image_read_by_reader_model :
   | _ => False
   end.
 Proof. exact ImgReader.ExampleE2E.ex_e2e_read. Qed.
+
+(* ---- 7. ONE end-to-end statement: tree + file contents + xattrs, read from the image bytes (coq/ImgE2E) ---- *)
+(* Sections 4-6 (tree), Properties_C08 (file contents) and Properties_C03 (xattr section) each proved a round trip with
+   the other two parts of the image as abstract inputs, and each left one hypothesis that only a composed packer model can
+   discharge.  ImgE2E.PackAll.pack_all is that model — gensquashfs after option parsing:
+     add operations -> lib/fstree model (C11 fs_add*, post_process)
+       -> apply_xattrs (C01 xw_sets over the pre-order of the tree, incl. hard link entries; xa = the index end() returned)
+       -> pack_files (C08 pack: block processor + block writer behind the provisional super block + options;
+          per file of fs->files the inode body [pack_body] = what the run recorded)
+       -> sqfs_writer_finish (Image write_image; the xattr section = ImgXattr xflush at the offset where the id table ends)
+   and ImgE2E.PackAll.read_all is a reader of the BYTES of the file built from the models of the real readers:
+     tree            coq/C05: sqfs_super_read, sqfs_id_table_read, sqfs_dir_reader_get_full_hierarchy   (section 6)
+     fragment table  coq/C05: sqfs_frag_table_read / sqfs_read_table                                      (NEW: FragRefine)
+     contents        coq/C10: sqfs_data_reader_read with one reader object (both caches) threaded through all files
+     xattrs          ImgXattr.XattrRead.read_xattr_set — the reader SPECIFICATION written from doc/format.adoc, not the
+                     C05 / C10 model of xattr_reader.c (no refinement between them exists yet)
+   pack_all_reads_back: whenever pack_all succeeds and the decidable hypotheses [e2e_okb] hold, read_all on the image bytes
+   returns, in directory order, one entry per path the adds denote (section 5: denotes), carrying
+     - the stat view (type + permission bits, uid, gid, mtime, xattr index, target / device / file location) and the inode
+       number of the node the path resolves to — the hard-link groups agree (numbering clause, injectivity),
+     - for a regular file the bytes given for that node,
+     - the key/value pairs given for that node, one pair per key with the last value winning, in some order (set_spec),
+   and entries with equal inode numbers (hard-linked names) share view, contents and pairs.
+   Discharged here (they were hypotheses of image_file_contents_roundtrip / image_real_reader_agrees / image_xattr_roundtrip):
+     "the inode view read back equals file_lkind"        pack_body_view + the path-level view of section 6
+     "xflush compress (o_xattr w) xw = Ok (in_xattr inp)" flush_offset_independent
+     "the inode stores index k"                           xa_of = nth of the indices xw_sets handed out
+   Also PROVED here, no longer assumed (they were decidable run-level hypotheses of the layer theorems): every file inode
+   pack_files leaves fits its form (block words 32 bit, their number = get_block_count of the stored size and fragment
+   fields, every field inside its width) and every xattr index is 32 bit — section 5's attached_okb — and every fragment
+   table entry fits its fields — image_domain's frag_okb: from C08's invariant of the block processor at the end of pack
+   (BodyOk.pack_body_okb, frag_table_okb) and the xattr writer refinement (Compose.xa_bound).
+   Hypotheses that remain, all decidable ([e2e_okb], ImgE2E/Hyps.v): on the INPUT input_okb, keys with a known prefix and
+   <= 65535 bytes behind it / values < 2^32 bytes, files < 2^31 - 1 bytes, compressor id 1..6, option bytes nothing or one
+   metadata block, xattrs not switched off, half > 0; on the RUN tree_alloc_okb (block lists / targets / entry names below
+   the reader's allocation limit), the fragment table <= 2 GiB, image_fits (trace_fits + bytes_used < 2^64), file < 2^63
+   bytes, < 2^32 - 1 xattr blocks, xattr section < 2^48 bytes; the two compressor contracts; loop bounds of the reader
+   models >= e2e_depth / e2e_efuel / e2e_fuel.  A bound on the INPUT that implies the run-level ones (trace_fits /
+   image_fits in particular) is NOT proved: it needs size bounds through the serializer, the block writer and the flush. *)
+From SqfsV Require C08.DedupModel C08.DedupTheorems.
+From SqfsV Require ImgData.GlueModel ImgXattr.FlushModel Image.FinishProofs.
+From SqfsV Require C10.DataModel.
+From SqfsV Require ImgE2E.PackAll ImgE2E.Hyps ImgE2E.WhereProofs ImgE2E.BodyProofs ImgE2E.BodyOk ImgE2E.FragRefine
+  ImgE2E.Compose ImgE2E.Example.
+
+Theorem pack_all_reads_back :
+  forall (hashf : list N -> N)
+         (dcompress : list N -> option (list N)) (duncompress : list N -> nat -> option (list N)),
+  (forall b c, dcompress b = Some c ->
+     (length c < length b)%nat /\ forall n, (length b <= n)%nat -> duncompress c n = Some b) ->
+  forall compress uncompress, meta_contract compress uncompress ->
+  forall uc, Embed.uc_meets uncompress uc ->
+  forall limit, limit <= 65535 ->
+  forall half cfg pi r,
+  PackAll.pack_all hashf dcompress duncompress half compress limit cfg pi = PackAll.PDone r ->
+  Hyps.e2e_okb half cfg pi r = true ->
+  forall depth efuel fuel,
+  (Hyps.e2e_depth r <= depth)%nat -> (Hyps.e2e_efuel r <= efuel)%nat -> (Hyps.e2e_fuel r <= fuel)%nat ->
+  let img := FinishModel.image_bytes (PackAll.r_w r) in
+  let root := FstreeModel.fs_root (PackAll.r_fs r) in
+  let arr := PostModel.pp_inodes (PackAll.r_pp r) in
+  let fb := PackAll.fb_of (N.to_nat (FinishModel.c_block_size cfg)) (PackAll.r_st r) (PackAll.pi_contents pi)
+                          (PostModel.pp_files (PackAll.r_pp r)) in
+  let xa := PackAll.xa_of (PackAll.xattr_paths (PackAll.r_pp r)) (PackAll.r_idxs r) in
+  exists T fl out,
+    ReadImage.read_image_c05 uc depth efuel fuel img
+      = RBase.Ok (ReadImage.sup_of (FinishModel.w_super (PackAll.r_w r)), si_ids (FinishModel.w_img (PackAll.r_w r)), T) /\
+    denotes fb xa root fl /\
+    flat_lt [] (Embed.ltree_of T) = map (number arr) fl /\
+    (forall x, In x fl -> 1 <= ino_of arr (snd x) <= N.of_nat (length arr)) /\
+    (forall x y, In x fl -> In y fl -> ino_of arr (snd x) = ino_of arr (snd y) -> snd x = snd y) /\
+    PackAll.read_all uc uncompress duncompress img depth efuel fuel = RBase.Ok out /\
+    Forall2 (Compose.entry_matches pi root arr) fl out /\
+    (forall e1 e2, In e1 out -> In e2 out -> PackAll.re_ino e1 = PackAll.re_ino e2 ->
+       PackAll.re_view e1 = PackAll.re_view e2 /\ PackAll.re_data e1 = PackAll.re_data e2 /\
+       Permutation (PackAll.re_xattrs e1) (PackAll.re_xattrs e2)).
+Proof. exact Compose.pack_all_reads_back_l. Qed.
+Print Assumptions pack_all_reads_back.
+
+(* what [entry_matches] says about the entry e read back for the path x = (p, v, id) of the denoted flattening: path,
+   view and inode number as in section 6; the contents are the bytes given for id exactly when id is a regular file;
+   the pairs are a permutation of set_spec of the pairs given for id *)
+Theorem entry_matches_meaning : forall pi root arr p v id e,
+  Compose.entry_matches pi root arr (p, v, id) e <->
+  (PackAll.re_path e = p /\ PackAll.re_view e = v /\ PackAll.re_ino e = ino_of arr id /\
+   (exists nd, FstreeModel.lookup_path id root = Some nd /\
+      PackAll.re_data e = match FstreeModel.a_type (FstreeModel.node_attr nd) with
+                          | FstreeModel.FReg => Some (snd (PackAll.pi_contents pi id))
+                          | _ => None
+                          end) /\
+   Permutation (PackAll.re_xattrs e) (set_spec (PackAll.pi_xattrs pi id))).
+Proof. exact Compose.entry_matches_meaning_l. Qed.
+
+(* flush_offset_independent: the absolute offsets the xattr section stores depend on where it starts, and where it starts
+   does not depend on it — two write_image runs that differ only in the section agree on that offset (pack_all takes it
+   from a run without the section) *)
+Theorem flush_offset_independent : forall compress limit cfg inp1 inp2 w1 w2,
+  FinishModel.in_opts inp1 = FinishModel.in_opts inp2 -> FinishModel.in_data inp1 = FinishModel.in_data inp2 ->
+  FinishModel.in_frags inp1 = FinishModel.in_frags inp2 -> FinishModel.in_tree inp1 = FinishModel.in_tree inp2 ->
+  FinishModel.write_image compress limit cfg inp1 = Ok w1 -> FinishModel.write_image compress limit cfg inp2 = Ok w2 ->
+  FinishProofs.o_xattr w1 = FinishProofs.o_xattr w2.
+Proof. exact WhereProofs.write_image_where. Qed.
+Print Assumptions flush_offset_independent.
+
+(* pack_body_view: the file inode pack_all attaches shows a reader what the block processor recorded *)
+Theorem pack_body_view : forall bs st fid size,
+  lkind_of_body (PackAll.pack_body bs st fid size)
+  = GlueModel.file_lkind bs st fid size
+      (PackAll.sparse_bytes bs st fid size
+         (DedupModel.block_count bs size (GlueModel.has_frag (DedupModel.p_frag st fid)))).
+Proof. exact BodyProofs.pack_body_lkind. Qed.
+Print Assumptions pack_body_view.
+
+(* real_frag_loader_reads_written_table: the C05 model of sqfs_frag_table_read / sqfs_read_table (flag, sentinel and
+   window tests, allocation arithmetic, location list, one seek + read per block) run on the bytes of a written image
+   returns the table sqfs_frag_table_write was given, and C10's frag_entries turns it back into the (start, size word)
+   list — this was "still outside" in Properties_C08 (image_reader_table_is_packs used the reader specification) *)
+Theorem real_frag_loader_reads_written_table : forall compress uncompress, meta_contract compress uncompress ->
+  forall limit, limit <= 65535 ->
+  forall cfg inp w,
+  FinishModel.write_image compress limit cfg inp = Ok w ->
+  ImageProofs.image_domain cfg inp = true -> ImageProofs.image_fits w = true ->
+  Common.lenN (FinishModel.image_bytes w) < RBase.two63 ->
+  forall uc, Embed.uc_meets uncompress uc ->
+  forall fuel,
+  16 * nlen (FinishModel.in_frags inp) <= RBase.alloc_limit ->
+  (Hyps.frag_fuel (nlen (FinishModel.in_frags inp)) <= fuel)%nat ->
+  Super.frag_table_read uc (FinishModel.image_bytes w) fuel (ReadImage.sup_of (FinishModel.w_super w))
+    = RBase.Ok (FinishModel.frag_table_bytes (FinishModel.in_frags inp)) /\
+  PackAll.frag_table_of_raw (FinishModel.frag_table_bytes (FinishModel.in_frags inp)) = FinishModel.in_frags inp.
+Proof. exact Compose.real_frag_loader_l. Qed.
+Print Assumptions real_frag_loader_reads_written_table.
+
+(* non-vacuity (coq/ImgE2E/Example.v): d/a (4096 x 'A' + 5 bytes: one compressed block + a tail end; user.a = "1"), d/c
+   (same bytes: shares block start 96 and fragment (0, 0) with d/a), l = hard link to d/a (the pairs named for "l" are
+   recorded and dropped, as apply_dfs does), s = symlink with two keys of which one is given twice; toy data compressor,
+   zero-run-length metadata compressor, constant checksum.  The compressor contracts hold ... *)
+Example ex_e2e_contracts :
+  (forall b c, DedupModel.toy_compress b = Some c ->
+     (length c < length b)%nat /\ forall n, (length b <= n)%nat -> DedupModel.toy_uncompress c n = Some b) /\
+  meta_contract (img_compress 3) (img_uncompress 3) /\
+  Embed.uc_meets (img_uncompress 3) (ReadImage.uc_of (img_uncompress 3)).
+Proof. exact ImgE2E.Example.ex_e2e_contracts. Qed.
+
+(* ... pack_all succeeds and every decidable hypothesis holds ... *)
+Example ex_e2e_hyps :
+  match ImgE2E.Example.ex_run with
+  | PackAll.PDone r =>
+      Hyps.e2e_okb ImgE2E.Example.ex_half ImgE2E.Example.ex_cfg ImgE2E.Example.ex_pi r = true /\
+      N.of_nat (Hyps.e2e_depth r) = 5 /\ N.of_nat (Hyps.e2e_efuel r) = 4 /\ N.of_nat (Hyps.e2e_fuel r) = 139 /\
+      Common.lenN (FinishModel.image_bytes (PackAll.r_w r)) = 4096
+  | _ => False
+  end.
+Proof. exact ImgE2E.Example.ex_e2e_hyps. Qed.
+
+(* ... the run: fs->files, fs->inodes, the apply_dfs order, the indices end() returned (index 1 belongs to the hard link
+   entry and is stored nowhere), both files with block start 96 / one size word / fragment (0, 0), one fragment block,
+   the xattr section in the image and NO_XATTRS cleared ... *)
+Example ex_e2e_run :
+  match ImgE2E.Example.ex_run with
+  | PackAll.PDone r =>
+      let n_d := ImgE2E.Example.n_d in let n_a := ImgE2E.Example.n_a in let n_c := ImgE2E.Example.n_c in
+      let n_l := ImgE2E.Example.n_l in let n_s := ImgE2E.Example.n_s in
+      PostModel.pp_files (PackAll.r_pp r) = [[n_d; n_a]; [n_d; n_c]] /\
+      PostModel.pp_inodes (PackAll.r_pp r) = [[n_d; n_a]; [n_d; n_c]; [n_d]; [n_s]; []] /\
+      PackAll.xattr_paths (PackAll.r_pp r) = [[]; [n_d]; [n_d; n_a]; [n_d; n_c]; [n_l]; [n_s]] /\
+      PackAll.r_idxs r = [NOIDX; NOIDX; 0; NOIDX; 1; 2] /\
+      map (fun n => lkind_of_payload (fn_payload n)) (firstn 2 (FinishModel.in_tree (PackAll.r_inp r))) =
+        [LFile 96 4101 0 0 0 [4]; LFile 96 4101 0 0 0 [4]] /\
+      FinishModel.in_frags (PackAll.r_inp r) = [(100, 16777221)] /\
+      match FinishModel.in_xattr (PackAll.r_inp r) with
+      | Some (b, off) => off = 90 /\ Common.lenN b = 114
+      | None => False
+      end /\
+      N.land (SuperModel.s_flags (FinishModel.w_super (PackAll.r_w r))) c_SQFS_FLAG_NO_XATTRS = 0
+  | _ => False
+  end.
+Proof. exact ImgE2E.Example.ex_e2e_run. Qed.
+
+(* ... and read_all on the bytes of the image returns the inputs: d/a and l under inode number 1 with the same contents
+   and pairs, d/c with the same bytes under number 2, s with one pair per key (the later value of user.a) *)
+Example ex_e2e_read :
+  match ImgE2E.Example.ex_run with
+  | PackAll.PDone r =>
+      let n_d := ImgE2E.Example.n_d in let n_a := ImgE2E.Example.n_a in let n_c := ImgE2E.Example.n_c in
+      let n_l := ImgE2E.Example.n_l in let n_s := ImgE2E.Example.n_s in
+      let k_a := ImgE2E.Example.k_a in let k_t := ImgE2E.Example.k_t in let ex_A := ImgE2E.Example.ex_A in
+      match ImgE2E.Example.ex_read r with
+      | RBase.Ok out =>
+          map (fun e => (PackAll.re_path e, PackAll.re_ino e,
+                         (pv_mode (PackAll.re_view e), pv_uid (PackAll.re_view e), pv_gid (PackAll.re_view e),
+                          pv_mtime (PackAll.re_view e)),
+                         PackAll.re_data e, PackAll.re_xattrs e)) out =
+          [ ([], 5, (16877, Some 0, Some 0, 1600000000), None, []);
+            ([n_d], 3, (16877, Some 0, Some 0, 1600000000), None, []);
+            ([n_d; n_a], 1, (33188, Some 1000, Some 100, 1600000000), Some ex_A, [(k_a, [49])]);
+            ([n_d; n_c], 2, (33152, Some 0, Some 0, 5), Some ex_A, []);
+            ([n_l], 1, (33188, Some 1000, Some 100, 1600000000), Some ex_A, [(k_a, [49])]);
+            ([n_s], 4, (41471, Some 5, Some 6, 7), None, [(k_a, [49; 50]); (k_t, repeat 50 20)]) ] /\
+          map (fun e => pv_kind (PackAll.re_view e)) out =
+          [ LDir 0; LDir 0; LFile 96 4101 0 0 0 [4]; LFile 96 4101 0 0 0 [4]; LFile 96 4101 0 0 0 [4];
+            LSlink [100; 47; 97] ]
+      | _ => False
+      end
+  | _ => False
+  end.
+Proof. exact ImgE2E.Example.ex_e2e_read. Qed.
+
+(* packed_file_inodes_fit / packed_fragment_entries_fit: what pack (C08: block processor + block writer) leaves fits the
+   on-disk fields — for every checksum function, every data compressor meeting its contract, every file list, flag
+   assignment and schedule: the inode body of every file meets file_body_okb (block words 32 bit, their number is
+   get_block_count of the stored size / fragment fields, block start / size / sparse count / fragment reference inside
+   the widths of the chosen form) and every fragment table entry meets frag_okb.  These were decidable hypotheses about
+   the run (attached_okb in section 5, image_domain in Properties_C03 / C08); the only bounds left are "every file and the
+   block writer's file are shorter than 2^63 bytes" and "fewer than 2^32 fragment blocks". *)
+Theorem packed_file_inodes_fit :
+  forall (hashf : list N -> N)
+         (dcompress : list N -> option (list N)) (duncompress : list N -> nat -> option (list N)) (bs half : nat),
+  (forall b c, dcompress b = Some c ->
+     (length c < length b)%nat /\ forall n, (length b <= n)%nat -> duncompress c n = Some b) ->
+  (0 < bs)%nat -> N.of_nat bs <= c_SQFS_MAX_BLOCK_SIZE -> (0 < half)%nat ->
+  forall file0 files sched st,
+  DedupModel.pack hashf dcompress duncompress bs false true half file0 files sched = DedupModel.Ok st ->
+  N.of_nat (length (DedupModel.w_file (DedupModel.p_wr st))) < 9223372036854775808 ->
+  N.of_nat (DedupModel.p_nfrag st) < 4294967296 ->
+  forall fid fl d,
+  nth_error files fid = Some (fl, d) -> N.of_nat (length d) < 9223372036854775808 ->
+  file_body_okb (N.of_nat bs) (PackAll.pack_body bs st fid (length d)) = true.
+Proof. exact BodyOk.pack_body_okb. Qed.
+Print Assumptions packed_file_inodes_fit.
+
+Theorem packed_fragment_entries_fit :
+  forall (hashf : list N -> N)
+         (dcompress : list N -> option (list N)) (duncompress : list N -> nat -> option (list N)) (bs half : nat),
+  (forall b c, dcompress b = Some c ->
+     (length c < length b)%nat /\ forall n, (length b <= n)%nat -> duncompress c n = Some b) ->
+  (0 < bs)%nat -> N.of_nat bs <= c_SQFS_MAX_BLOCK_SIZE -> (0 < half)%nat ->
+  forall file0 files sched st,
+  DedupModel.pack hashf dcompress duncompress bs false true half file0 files sched = DedupModel.Ok st ->
+  N.of_nat (length (DedupModel.w_file (DedupModel.p_wr st))) < 9223372036854775808 ->
+  N.of_nat (DedupModel.p_nfrag st) < 4294967296 ->
+  forallb ImageProofs.frag_okb (GlueModel.frag_table_of st) = true.
+Proof. exact BodyOk.frag_table_okb. Qed.
+Print Assumptions packed_fragment_entries_fit.
